@@ -298,6 +298,17 @@ fn main() {
         }
     }
 
+    // self-consistent layouts for OUT-OF-RANGE dimensions (one count in 1..=64, the other 0 / 65 / 66, and both out of
+    // range): exact length, matching total_exit_slots header, valid scalars and limbs - only the count check can reject
+    for &(m, n) in &[(1usize, 65usize), (65, 1), (2, 65), (65, 2), (1, 66), (66, 1), (1, 0), (0, 1), (3, 0), (0, 3), (64, 0), (0, 64), (0, 0), (65, 65)] {
+        for rep in 0..2 {
+            let mut v = valid_pub(&mut rng, m, n);
+            let tag = if rep == 0 { "out-of-range-dims-consistent-layout" } else { mutate(&mut rng, &mut v) };
+            let r = no_panic(|| enc_pub(PublicBatchPublicInputs::try_from_u64_slice(&v, m, n))).unwrap_or(PANIC.to_vec());
+            out.case(2405, tag, &[seg_u64(&v), vec![m as i128, n as i128]], &r);
+        }
+    }
+
     // ---- proof-count arithmetic
     let counts: [u64; 22] = [0, 1, 2, 63, 64, 65, 66, 100, 1 << 16, 1 << 31, (1 << 32) - 1, 1 << 32, (1 << 32) + 1, u64::MAX / 21, u64::MAX / 21 + 1, 1 << 61, 1 << 62, 1 << 63, u64::MAX / 2, u64::MAX - 1, u64::MAX, 439208192231179801];
     for c in 0..=130u64 {
